@@ -116,6 +116,29 @@ def build(tree, cls=PNode, parent=None, index=None):
     return n, index
 
 
+def build_links(tree, index, labels):
+    """the same shape built from library classes, with every node of odd label below the root a `SymlinkNode` whose target is an
+    earlier plain `Node` of the forest.  A link forwards attribute reads and writes to its target, except its own parent/children
+    links: whatever the library stores on a node besides those two (a memo, a counter) lands on the target.  Structure - and with
+    it every navigation attribute - is the link's own.  Labels are kept outside the nodes (`labels[id(node)]`)."""
+    from anytree import Node, SymlinkNode
+    plain = [n for n in index.values() if not isinstance(n, SymlinkNode)]
+
+    def rec(t, parent):
+        lab = t[0]
+        if parent is not None and lab % 2 == 1 and plain:
+            n = SymlinkNode(plain[lab % len(plain)], parent=parent)
+        else:
+            n = Node("n%d" % lab, parent=parent)
+            plain.append(n)
+        index[lab] = n
+        labels[id(n)] = lab
+        for c in t[1]:
+            rec(c, n)
+        return n
+    return rec(tree, None)
+
+
 def snapshot(index):
     """canonical (parent, children) map by label"""
     return {str(k): [None if n.parent is None else n.parent.label, [c.label for c in n.children]]
